@@ -2,10 +2,12 @@
 from ..mir import Callee, Resolver, fmt, literals, walk, strip_sites as s, edge_literal, EXIT
 from ..effects import mut_calls, assigns
 from . import prune
+from . import helpers
 from .prune import is_call
 
 LEVEL = 'other'
 RULES = {
+    'C06.R7': helpers.RULE_TEXT,
     'C06.R1': 'every non-root node with an Indeterminate cache passes phase_inh -> phase_one -> phase_two (each only if the previous left it Indeterminate) and the result is stored; the only skips are the root and the cached-state arms',
     'C06.R2': 'from an Infeasible classification every path queues the node\'s parent edge for removal and skips its subtree; every queued entry reaches try_remove_child; a cached Infeasible node has its subtree skipped',
     'C06.R3': 'forward_if_redundant(parent of node) is called exactly when the last sibling (n_remaining == 0) has been classified',
@@ -13,7 +15,7 @@ RULES = {
     'C06.R4': 'the cached-state arms perform no mutation of the tree (a second run changes nothing)',
     'C06.R6': 'no function of the elimination (infeasible_elimination and the AffTree methods it reaches) resets a stored verdict to Indeterminate or borrows it mutably',
 }
-FLOORS = {'C06.R1': 4, 'C06.R2': 3, 'C06.R3': 1, 'C06.R4': 2, 'C06.R5': 12, 'C06.R6': 4}
+FLOORS = {'C06.R7': 4, 'C06.R1': 4, 'C06.R2': 3, 'C06.R3': 1, 'C06.R4': 2, 'C06.R5': 12, 'C06.R6': 4}
 EXPLANATION = 'Must-classify / must-remove / must-forward path rules over the traversal loop of infeasible_elimination.'
 DOES_NOT_DECIDE = 'emptiness itself (the LP answer, C10); terminal-count bounds for distilled networks'
 CACHED = {'Infeasible', 'Feasible', 'FeasibleWitness'}
@@ -84,6 +86,7 @@ def no_downgrade(ctx):
 
 
 def run(ctx):
+    helpers.run_for(ctx)
     shared_cache_rules(ctx)
     no_downgrade(ctx)
     b = ctx.body('C06.R1', 'AffTree::infeasible_elimination')
